@@ -2,7 +2,7 @@
     Property theorems only: statements in full, each closed by [exact]/[apply] of a lemma proved elsewhere.
     [gen_*] are the definitions regenerated from simulate.py / base.py on every run (gen/GenC18.v). *)
 From Coq Require Import ZArith QArith Qround Qabs Bool List String Sorted Permutation.
-From Leaspy Require Import Base.QAux Api.Simulate Api.SimulateProofs Api.SimulateTie.
+From Leaspy Require Import Base.QAux Api.Simulate Api.SimulateProofs Api.SimulateTie Api.SimulateGen Api.SimulateGenProofs Api.SimulateGenTie.
 From LeaspyGen Require Import GenC18.
 Import ListNotations.
 
@@ -306,3 +306,118 @@ Print Assumptions C18_tie_options.
 Theorem C18_tie_order : gen_round_before_dedup = true /\ gen_keep_first = true.
 Proof. exact tie_order. Qed.
 Print Assumptions C18_tie_order.
+
+(* ---------------------------------------------------------------- the generation loop inside the model *)
+
+(** [gen_generate T add absT ltb key ofQ nsrc vt ps tape]: the generation of the current source ([gen_prog_src], regenerated from
+    simulate.py: which draws with which parameters and size, the columns, the per-individual visit loop; rounding options,
+    precision bound before the loop, default spacing) run on the stored parameters [ps] of a design and a TAPE of the values
+    returned by the successive [numpy.random.normal] calls — for EVERY arithmetic [T, add, absT, ltb], every rounding [key]
+    (age -> integer in units of 10^-p) and every tape.  [SimulateGenTie.ex_random_generation] / [ex_table_generation]: non-vacuity. *)
+
+(** what [ages_wellformed] says of a generated cohort, in full *)
+Theorem C18_ages_wellformed_meaning : forall (T : Type) (key : Z -> T -> Z) (o : gen_out T),
+  ages_wellformed T key o <->
+  (map fst (go_ages o) = map fst (go_requested o) /\
+   forall id ks, In (id, ks) (go_ages o) ->
+     ks = final_ages T key (go_precision o) (go_requested o) id /\ ks <> [] /\ StronglySorted Z.lt ks /\
+     (forall l1 a b l2, ks = (l1 ++ a :: b :: l2)%list -> (a + 1 <= b)%Z) /\
+     (forall k, In k ks <-> exists l t, In (id, l) (go_requested o) /\ In t l /\ k = key (go_precision o) t)).
+Proof. intros T key o. reflexivity. Qed.
+Print Assumptions C18_ages_wellformed_meaning.
+
+(** Random design, every tape on which the generation ends: exactly the requested number of individuals "0".."n-1"; the
+    precision is the one of the decision table for the stored spacing; every individual has at least one age, its ages are
+    integers (in units of 10^-p, i.e. multiples of the precision) strictly increasing — unique — consecutive ones at least one
+    unit apart, and they are exactly the rounded generated ages of that individual; the draws consumed are (4 + sources) per
+    individual plus one per generated age after the first; the calls made are those of [calls_random]. *)
+Theorem C18_generation_random :
+  forall (T : Type) (add : T -> T -> T) (absT : T -> T) (ltb : T -> T -> bool) (key : Z -> T -> Z) (ofQ : Q -> T)
+         (nsrc : nat) (ps : dict) (tp : tape T) (o : gen_out T),
+  gen_generate T add absT ltb key ofQ nsrc VtRandom ps tp = GOk o ->
+  exists n ms, lookup "patient_number" ps = Some (VInt n) /\ (0 <= n)%Z /\ min_spacing_of gen_default_spacing ps = Some ms /\
+    gen_precision ms = Some (go_precision o) /\
+    map fst (go_ages o) = ids_random (Z.to_nat n) /\ List.length (go_ages o) = Z.to_nat n /\
+    ages_wellformed T key o /\
+    consumed T tp o = ((4 + nsrc) * Z.to_nat n + later_visits (go_requested o))%nat /\
+    go_calls o = calls_random nsrc (later_visits (go_requested o)).
+Proof. exact gen_random. Qed.
+Print Assumptions C18_generation_random.
+
+(** Table design (no null TIME: validated by the constructor): exactly the individuals of the table, once each, as many as the
+    constructor counted; ages rounded to 3 decimals, well-formed as above, and EXACTLY the table's ages of that ID (the model has
+    no row labels: the ages are a function of the ID and TIME columns); the draws consumed are a function of the design and the
+    model only: (2 + sources) per individual. *)
+Theorem C18_generation_table :
+  forall (T : Type) (add : T -> T -> T) (absT : T -> T) (ltb : T -> T -> bool) (key : Z -> T -> Z) (ofQ : Q -> T)
+         (nsrc : nat) (ps : dict) (tp : tape T) (o : gen_out T),
+  gen_generate T add absT ltb key ofQ nsrc VtDataframe ps tp = GOk o ->
+  existsb (fun r => match snd r with None => true | Some _ => false end)
+          (match lookup "df_visits" ps with Some (VFrame f) => rows f | _ => [] end) = false ->
+  exists f, lookup "df_visits" ps = Some (VFrame f) /\ all_string_ids f = true /\
+    gen_precision gen_default_spacing = Some (go_precision o) /\ go_precision o = 3%Z /\
+    map fst (go_ages o) = table_ids f /\ NoDup (map fst (go_ages o)) /\ List.length (go_ages o) = n_groups f /\
+    ages_wellformed T key o /\
+    (forall id ks, In (id, ks) (go_ages o) ->
+       forall k, In k ks <-> exists q, In (IdStr id, Some q) (rows f) /\ k = key (go_precision o) (ofQ q)) /\
+    consumed T tp o = ((2 + nsrc) * n_groups f)%nat /\
+    go_calls o = calls_ip nsrc.
+Proof. exact gen_table. Qed.
+Print Assumptions C18_generation_table.
+
+(** for EVERY accepted table design (no hypothesis left but acceptance): the number of simulated individuals is the stored
+    [patient_number] = number of distinct IDs, the ages are exactly the table's per ID at 3 decimals, the draws are design-only *)
+Theorem C18_generation_table_accepted :
+  forall (T : Type) (add : T -> T -> T) (absT : T -> T) (ltb : T -> T -> bool) (key : Z -> T -> Z) (ofQ : Q -> T)
+         (nsrc : nat) (d : design) (ps : dict) (tp : tape T) (o : gen_out T),
+  construct d = Ok ps -> d_visit_type d = Some VtDataframe ->
+  gen_generate T add absT ltb key ofQ nsrc VtDataframe ps tp = GOk o ->
+  exists f, ps = [("patient_number", VInt (Z.of_nat (n_groups f))); ("df_visits", VFrame f)]%string /\
+    List.length (go_ages o) = n_groups f /\ map fst (go_ages o) = table_ids f /\ ages_wellformed T key o /\
+    (forall id ks, In (id, ks) (go_ages o) ->
+       forall k, In k ks <-> exists q, In (IdStr id, Some q) (rows f) /\ k = key 3%Z (ofQ q)) /\
+    consumed T tp o = ((2 + nsrc) * n_groups f)%nat.
+Proof. exact gen_table_accepted. Qed.
+Print Assumptions C18_generation_table_accepted.
+
+(** ... whatever the order of the table's rows *)
+Theorem C18_table_row_order_irrelevant :
+  forall (T : Type) (key : Z -> T -> Z) (ofQ : Q -> T) (f f' : frame) (p : Z) (id : string),
+  Permutation (rows f) (rows f') ->
+  final_ages T key p (map (fun id => (id, table_times T ofQ f id)) (table_ids f)) id =
+  final_ages T key p (map (fun id => (id, table_times T ofQ f' id)) (table_ids f')) id.
+Proof. exact table_ages_permutation. Qed.
+Print Assumptions C18_table_row_order_irrelevant.
+
+(** the precision of a generated cohort is one of 0..3, so the integer ages are multiples of the precision 10^-p and two
+    consecutive ages of an individual differ by at least 10^-p *)
+Theorem C18_generation_age_units :
+  forall (T : Type) (add : T -> T -> T) (absT : T -> T) (ltb : T -> T -> bool) (key : Z -> T -> Z) (ofQ : Q -> T)
+         (nsrc : nat) (vt : vtype) (ps : dict) (tp : tape T) (o : gen_out T),
+  gen_generate T add absT ltb key ofQ nsrc vt ps tp = GOk o ->
+  (0 <= go_precision o <= 3)%Z /\
+  (forall k, age_of (go_precision o) k * pow10 (go_precision o) == inject_Z k) /\
+  (forall a b, (a + 1 <= b)%Z -> age_of (go_precision o) a + 1 / pow10 (go_precision o) <= age_of (go_precision o) b).
+Proof.
+  intros T add absT ltb key ofQ nsrc vt ps tp o H. pose proof (gen_precision_range T add absT ltb key ofQ nsrc vt ps tp o H) as R.
+  split; [exact R|]. split; [intros k; apply age_of_scaled; apply R | intros a b; apply age_of_gap; apply R].
+Qed.
+Print Assumptions C18_generation_age_units.
+
+(** "the number of draws consumed is a function of the design only" holds for a table design ([C18_generation_table]) and is FALSE
+    for a random design: the visit loop draws until the follow-up age is passed (same design, two tapes, 14 and 12 draws). *)
+Theorem C18_draws_random_design_only_refuted :
+  exists ps tp1 tp2 o1 o2,
+    gen_generate_Q 1%nat VtRandom ps tp1 = GOk o1 /\ gen_generate_Q 1%nat VtRandom ps tp2 = GOk o2 /\
+    go_rest o1 = [] /\ go_rest o2 = [] /\ consumed Q tp1 o1 <> consumed Q tp2 o2.
+Proof. exact draws_random_not_design_only. Qed.
+Print Assumptions C18_draws_random_design_only_refuted.
+
+(** the program is the one of the source: which distribution, parameters, size and order of every draw; the columns; the loop;
+    the order of the pipeline in [_run] (ages are rounded and de-duplicated before [Data.from_dataframe] sorts them) *)
+Theorem C18_tie_generation :
+  gen_prog_src = model_prog /\
+  gen_run_order = ["self._sample_individual_parameters_from_model_parameters"; "self._get_leaspy_model";
+                   "self._generate_visit_ages"; "self._generate_dataset"; "Data.from_dataframe"]%string.
+Proof. split; [exact tie_gen_prog | exact tie_run_order]. Qed.
+Print Assumptions C18_tie_generation.
